@@ -1,5 +1,5 @@
 (* Extraction of the unsized-type models (C01-C06). ExtrOcamlBasic only. *)
 From Coq Require Import Extraction ExtrOcamlBasic.
-From SF Require Import Base.Prelude Unsized.Types Unsized.Parse Unsized.Machine Unsized.Ops Unsized.Run Unsized.SizedInit.
+From SF Require Import Base.Prelude Unsized.Types Unsized.Parse Unsized.Machine Unsized.Ops Unsized.Run Unsized.SizedInit Unsized.ClientAcct.
 Extraction Language OCaml.
-Extraction "model_unsized.ml" Z.add Z.mul Z.opp run_enc run_ops run_parse run_swap run_c05s.
+Extraction "model_unsized.ml" Z.add Z.mul Z.opp run_enc run_ops run_parse run_swap run_c05s run_c05c.
